@@ -59,6 +59,9 @@ type Exec struct {
 	kinds    map[string]int
 	refKey   map[string]bool
 	onceMemo map[*ssa.Alloc]bool
+	allowed  map[string]bool
+	allowAll bool
+	allowDone bool
 	escMemo  map[*ssa.Alloc]bool
 	refined  map[string]bool
 	noImpl   []string
